@@ -254,7 +254,14 @@ def rule_c(ctx, out):
     out.ok({"function": f.qual, "passthrough_sites": len(fall)})
 
 
+def rule_d(ctx, out):
+    """The replay driver assembles sections exactly like the optimising driver: per-section block lists are fresh."""
+    from . import C09
+    C09.rule_e(ctx, out, modules=("gasol_asm",))
+
+
 RULES = [
+    ("C11.d", "per-section block lists of the drivers are fresh", 2, rule_d),
     ("C11.a", "verification dominates emission in log replay", 5, rule_a),
     ("C11.b", "log writer/reader agreement", 10, rule_b),
     ("C11.c", "unknown ids (informational)", 1, rule_c),
